@@ -36,7 +36,7 @@ import (
 	ctypes "github.com/tendermint/tendermint/rpc/core/types"
 	rpctypes "github.com/tendermint/tendermint/rpc/jsonrpc/types"
 	sm "github.com/tendermint/tendermint/state"
-	blockidxnull "github.com/tendermint/tendermint/state/indexer/block/null"
+	blockidxkv "github.com/tendermint/tendermint/state/indexer/block/kv"
 	"github.com/tendermint/tendermint/state/txindex"
 	txkv "github.com/tendermint/tendermint/state/txindex/kv"
 	"github.com/tendermint/tendermint/types"
@@ -59,7 +59,8 @@ type world struct {
 	chain   *lib.Chain
 	kv      *lib.C20KV
 	init    int64
-	tip     int64
+	tip     int64 // head of the chain as the light client's providers serve it
+	nodeTip int64 // head of the full node behind the RPC client (tip - lag: a node may be a few blocks behind, or the chain grows after it answered)
 	plans   map[int64]*lib.HeightPlan
 	planned map[string]abci.ResponseDeliverTx // tx -> the DeliverTx answer the application was scripted to give
 	txs     []txRef
@@ -70,9 +71,10 @@ type world struct {
 
 func (w *world) close() { w.chain.Close() }
 
+// heights the full node has.
 func (w *world) heights() []int64 {
-	hs := make([]int64, 0, w.tip-w.init+1)
-	for h := w.init; h <= w.tip; h++ {
+	hs := make([]int64, 0, w.nodeTip-w.init+1)
+	for h := w.init; h <= w.nodeTip; h++ {
 		hs = append(hs, h)
 	}
 	return hs
@@ -107,7 +109,7 @@ func genEvents(t *rapid.T, label string, max int) []abci.Event {
 }
 
 // genWorld builds a chain of nH heights from rapid draws.
-func genWorld(t *rapid.T, maxH int) *world {
+func genWorld(t *rapid.T, maxH int, lags ...int64) *world {
 	w := &world{plans: map[int64]*lib.HeightPlan{}, planned: map[string]abci.ResponseDeliverTx{}, feat: map[string]bool{}}
 	nVals := rapid.IntRange(1, 5).Draw(t, "nvals")
 	keys := make([]int, nVals)
@@ -243,12 +245,29 @@ func genWorld(t *rapid.T, maxH int) *world {
 			vals := chain.ValidatorsAt(prev)
 			vi := rapid.IntRange(0, vals.Size()-1).Draw(t, label+".evval")
 			k := lib.KeyIndex(vals.Validators[vi].Address)
-			ev, err := chain.DuplicateVote(k, tmproto.PrecommitType, prev, 0, lib.ForgeBlockID(label+"A"), lib.ForgeBlockID(label+"B"))
-			if err != nil {
-				t.Fatalf("VERIF-INFRA: DuplicateVote: %v", err)
+			evKind := rapid.SampledFrom([]string{"duplicate-vote", "light-client-attack", "both"}).Draw(t, label+".evkind")
+			if evKind != "light-client-attack" {
+				ev, err := chain.DuplicateVote(k, tmproto.PrecommitType, prev, 0, lib.ForgeBlockID(label+"A"), lib.ForgeBlockID(label+"B"))
+				if err != nil {
+					t.Fatalf("VERIF-INFRA: DuplicateVote: %v", err)
+				}
+				p.Evidence = append(p.Evidence, ev)
+				w.feat["evidence"] = true
 			}
-			p.Evidence = []types.Evidence{ev}
-			w.feat["evidence"] = true
+			if evKind != "duplicate-vote" {
+				// an equivocation / amnesia attack on the previous height by all of its validators
+				var signers []int
+				for _, v := range vals.Validators {
+					signers = append(signers, lib.KeyIndex(v.Address))
+				}
+				shape := rapid.SampledFrom([]lib.AttackShape{lib.Equivocation, lib.Equivocation, lib.Amnesia}).Draw(t, label+".evshape")
+				ev, err := chain.ForgeAttack(lib.AttackSpec{Shape: shape, ConflictHeight: prev, Signers: signers, Salt: label})
+				if err != nil {
+					t.Fatalf("VERIF-INFRA: ForgeAttack: %v", err)
+				}
+				p.Evidence = append(p.Evidence, ev)
+				w.feat["evidence-light-client-attack"] = true
+			}
 		}
 		// one absent signature when the rest still has more than 2/3
 		cur := chain.State.Validators
@@ -268,6 +287,14 @@ func genWorld(t *rapid.T, maxH int) *world {
 		}
 	}
 	w.tip = chain.Tip()
+	w.nodeTip = w.tip
+	if len(lags) > 0 {
+		// the full node is lag blocks behind what the light client's providers already serve
+		if lag := rapid.SampledFrom(lags).Draw(t, "node.lag"); lag > 0 && w.tip-lag >= w.init {
+			w.nodeTip = w.tip - lag
+			w.feat[fmt.Sprintf("node-lag=%d", lag)] = true
+		}
+	}
 	if w.init > 1 {
 		w.feat["initial>1"] = true
 	}
@@ -279,6 +306,16 @@ func genWorld(t *rapid.T, maxH int) *world {
 // finish builds the full node's side of the world: tx index and rpc/core environment.
 func (w *world) finish(t fataler) {
 	chain := w.chain
+	if w.nodeTip == 0 {
+		w.nodeTip = w.tip
+	}
+	var nodeTxs []txRef
+	for _, tr := range w.txs {
+		if tr.Height <= w.nodeTip {
+			nodeTxs = append(nodeTxs, tr)
+		}
+	}
+	w.txs = nodeTxs
 	// the full node's tx index, filled the way the indexer service does it (one batch per block)
 	idx := txkv.NewTxIndex(dbm.NewMemDB())
 	for _, h := range w.heights() {
@@ -297,16 +334,29 @@ func (w *world) finish(t fataler) {
 			t.Fatalf("VERIF-INFRA: AddBatch: %v", err)
 		}
 	}
+	// ... and its block index (begin/end-block events), filled the way the indexer service does it
+	bidx := blockidxkv.New(dbm.NewMemDB())
+	for _, h := range w.heights() {
+		resp, err := chain.StateStore.LoadABCIResponses(h)
+		if err != nil {
+			t.Fatalf("VERIF-INFRA: LoadABCIResponses(%d): %v", h, err)
+		}
+		b := chain.Blocks[h]
+		if err := bidx.Index(types.EventDataNewBlockHeader{Header: b.Header, NumTxs: int64(len(b.Txs)),
+			ResultBeginBlock: *resp.BeginBlock, ResultEndBlock: *resp.EndBlock}); err != nil {
+			t.Fatalf("VERIF-INFRA: block index: %v", err)
+		}
+	}
 	w.env = &rpccore.Environment{
 		ProxyAppQuery:    chain.Proxy.Query(),
 		StateStore:       chain.StateStore,
-		BlockStore:       chain.BlockStore,
+		BlockStore:       cappedStore{BlockStore: chain.BlockStore, cap: w.nodeTip},
 		EvidencePool:     sm.EmptyEvidencePool{},
 		P2PTransport:     stubTransport{},
 		PubKey:           lib.Key(0).PubKey(),
 		GenDoc:           chain.GenDoc,
 		TxIndexer:        idx,
-		BlockIndexer:     &blockidxnull.BlockerIndexer{},
+		BlockIndexer:     bidx,
 		ConsensusReactor: &consensus.Reactor{},
 		Logger:           log.NewNopLogger(),
 		Config:           *cfg.DefaultRPCConfig(),
@@ -317,12 +367,52 @@ func (w *world) finish(t fataler) {
 func (w *world) classes() []string {
 	var cs []string
 	for _, f := range []string{"txs", "tx-events", "block-events", "val-updates", "param-updates-hashed", "param-updates-unhashed",
-		"evidence", "absent-sig", "initial>1"} {
+		"evidence", "evidence-light-client-attack", "absent-sig", "initial>1", "node-lag=1", "node-lag=2"} {
 		if w.feat[f] {
 			cs = append(cs, "world:"+f)
 		}
 	}
 	return cs
+}
+
+// cappedStore is the block store of a node whose head is at cap (it has not seen the later blocks yet).
+type cappedStore struct {
+	sm.BlockStore
+	cap int64
+}
+
+func (c cappedStore) Height() int64 { return c.cap }
+func (c cappedStore) Size() int64   { return c.cap - c.BlockStore.Base() + 1 }
+func (c cappedStore) LoadBlockMeta(h int64) *types.BlockMeta {
+	if h > c.cap {
+		return nil
+	}
+	return c.BlockStore.LoadBlockMeta(h)
+}
+func (c cappedStore) LoadBlock(h int64) *types.Block {
+	if h > c.cap {
+		return nil
+	}
+	return c.BlockStore.LoadBlock(h)
+}
+func (c cappedStore) LoadBlockByHash(hash []byte) *types.Block {
+	b := c.BlockStore.LoadBlockByHash(hash)
+	if b != nil && b.Height > c.cap {
+		return nil
+	}
+	return b
+}
+func (c cappedStore) LoadBlockCommit(h int64) *types.Commit {
+	if h >= c.cap { // the canonical commit for h is in block h+1
+		return nil
+	}
+	return c.BlockStore.LoadBlockCommit(h)
+}
+func (c cappedStore) LoadSeenCommit(h int64) *types.Commit {
+	if h > c.cap {
+		return nil
+	}
+	return c.BlockStore.LoadSeenCommit(h)
 }
 
 type stubTransport struct{}
@@ -373,6 +463,9 @@ func (c *coreClient) Tx(ctx context.Context, hash []byte, prove bool) (*ctypes.R
 }
 func (c *coreClient) TxSearch(ctx context.Context, query string, prove bool, page, perPage *int, orderBy string) (*ctypes.ResultTxSearch, error) {
 	return rpccore.TxSearch(c.rc("TxSearch"), query, prove, page, perPage, orderBy)
+}
+func (c *coreClient) BlockSearch(ctx context.Context, query string, page, perPage *int, orderBy string) (*ctypes.ResultBlockSearch, error) {
+	return rpccore.BlockSearch(c.rc("BlockSearch"), query, page, perPage, orderBy)
 }
 func (c *coreClient) ConsensusParams(ctx context.Context, h *int64) (*ctypes.ResultConsensusParams, error) {
 	return rpccore.ConsensusParams(c.rc("ConsensusParams"), h)
@@ -487,6 +580,10 @@ func (l *liar) Tx(ctx context.Context, hash []byte, prove bool) (*ctypes.ResultT
 func (l *liar) TxSearch(ctx context.Context, query string, prove bool, page, perPage *int, orderBy string) (*ctypes.ResultTxSearch, error) {
 	r, err := l.next.TxSearch(ctx, query, prove, page, perPage, orderBy)
 	return relay(l, "TxSearch", r, err)
+}
+func (l *liar) BlockSearch(ctx context.Context, query string, page, perPage *int, orderBy string) (*ctypes.ResultBlockSearch, error) {
+	r, err := l.next.BlockSearch(ctx, query, page, perPage, orderBy)
+	return relay(l, "BlockSearch", r, err)
 }
 func (l *liar) ConsensusParams(ctx context.Context, h *int64) (*ctypes.ResultConsensusParams, error) {
 	r, err := l.next.ConsensusParams(ctx, h)
